@@ -28,3 +28,40 @@ def no_comment_cache():
             del Parser.comment_positions
         else:
             Parser.comment_positions = old
+
+
+@contextlib.contextmanager
+def mode_aware_memoization():
+    """Arpeggio's packrat cache (ParsingExpression._result_cache) is keyed by position only - not by the whitespace
+    mode (skipws / ws / eolterm) in force when the entry was made (finding F-C19a).  Inside this context every
+    expression keeps one cache per whitespace mode, i.e. memoization as it would be with a complete key."""
+    from arpeggio import ParsingExpression
+
+    store = {}  # id(expression) -> {mode -> {position -> result}}
+    cur = {"parser": None}
+    orig_parse = ParsingExpression.parse
+
+    def parse(self, parser):
+        cur["parser"] = parser
+        return orig_parse(self, parser)
+
+    def getter(self):
+        p = cur["parser"]
+        mode = (p.skipws, p.ws, p.eolterm) if p is not None else None
+        return store.setdefault(id(self), {}).setdefault(mode, {})
+
+    def setter(self, value):
+        store[id(self)] = {}
+
+    marker = object()
+    old = ParsingExpression.__dict__.get("_result_cache", marker)
+    ParsingExpression._result_cache = property(getter, setter)
+    ParsingExpression.parse = parse
+    try:
+        yield
+    finally:
+        ParsingExpression.parse = orig_parse
+        if old is marker:
+            del ParsingExpression._result_cache
+        else:
+            ParsingExpression._result_cache = old
